@@ -302,6 +302,16 @@ func seqRun(maxtx int) {
 			c.E = stamp
 		}
 		last := hist.Calls[len(hist.Calls)-1]
+		// observe the state the edge leads to
+		for _, c := range []*call{{Op: "count"}, {Op: "get", By: false, H: 0}} {
+			c.G = 1
+			stamp++
+			c.S = stamp
+			exec(p, u, c, 0)
+			stamp++
+			c.E = stamp
+			hist.Calls = append(hist.Calls, c)
+		}
 		if p.GetTransactionCount() > 0 || last.Op == "remain" || last.Op == "clean" || last.Op == "del" {
 			b, _ := json.Marshal([]interface{}{last.Op, last.T, last.H, last.Ts, last.By, last.Ret, last.N, last.Txs, last.Old, last.Ver, last.Unv, last.Rem})
 			distinct[string(b)] = true
